@@ -37,7 +37,10 @@ def showObs (s : State) : String :=
 def key (s : State) : String :=
   let rs := (List.range s.nRunners).map fun r => toString (repr (s.runners r))
   let qs := (List.range s.nReqs).map fun q => toString (repr (s.reqs q))
-  s!"{rs}|{qs}|{s.loaded}|{s.pendingQ}|{s.finishedQ}|{s.expiredQ}|{s.unloadedQ}|{repr s.ppc}|{repr s.cpc}|{s.finishWaiters}|{s.requeuers}|{s.delayed}|{s.loaders}|{s.timerCbs}|{s.maxRunners}"
+  -- helper-goroutine pools are multisets: sort them so that permutations are one state
+  let srt (l : List Nat) : List Nat := (l.toArray.qsort (· < ·)).toList
+  let ld := (s.loaded.toArray.qsort (fun a b => a.1 < b.1)).toList
+  s!"{rs}|{qs}|{ld}|{s.pendingQ}|{s.finishedQ}|{s.expiredQ}|{s.unloadedQ}|{repr s.ppc}|{repr s.cpc}|{srt s.finishWaiters}|{srt s.requeuers}|{srt s.delayed}|{srt s.loaders}|{srt s.timerCbs}|{srt s.unloaders}|{s.maxRunners}"
 
 def fits (cpu : Bool) (ngpus : Nat) : List Fit :=
   [true, false].flatMap fun a => [true, false].flatMap fun b => [true, false].map fun c =>
@@ -49,6 +52,7 @@ def internalActs (cpu : Bool) (ngpus : Nat) (s : State) : List Act :=
   ++ (match s.ppc with | .eval _ => (fits cpu ngpus).map Act.pLookup | _ => [])
   ++ s.finishWaiters.map Act.finishSend
   ++ s.timerCbs.map Act.timerCb
+  ++ s.unloaders.map Act.unloadRun
 
 def timeActs (s : State) : List Act :=
   s.requeuers.map Act.requeue ++ s.delayed.map Act.delayedRequeue
@@ -60,7 +64,7 @@ def succs (v : Variant) (acts : List Act) (s : State) : List State := acts.filte
 partial def closure (v : Variant) (cpu : Bool) (ngpus : Nat) (time : Bool)
     (work : List State) (seen : Std.HashSet String) (acc : List State) (fuel : Nat) : List State :=
   match fuel, work with
-  | 0, _ => acc
+  | 0, _ => []          -- budget exhausted: the caller reports `budget`, never a verdict
   | _, [] => acc
   | fuel+1, s :: rest =>
     let acts := internalActs cpu ngpus s ++ (if time then timeActs s else [])
@@ -123,12 +127,22 @@ def runTrace (v : Variant) (cpu : Bool) (ngpus : Nat) (s0 : State) (steps : List
             | .advance => (cur, true)
             | .nop => (cur, false)
           let seen := starts.foldl (fun sn s => sn.insert (key s)) ({} : Std.HashSet String)
-          let all := closure v cpu ngpus time starts seen [] 200000
+          let all := closure v cpu ngpus time starts seen [] 12000
+          if all.isEmpty && !starts.isEmpty then s!"budget {k}" else
           let quiet := dedup (all.filter (quiescent v cpu ngpus))
-          let matching := quiet.filter (fun s => showObs s == obs)
+          -- The real scheduler is quiescent when every goroutine is parked; a goroutine can be parked
+          -- on a MUTEX (updateFreeSpace and expireRunner wait for a loading runner's refMu while
+          -- holding loadedMu, which stalls both loops), which the region-level model does not block
+          -- on.  The real state is then a reachable but non-quiescent state of the model, so the
+          -- conformance relation is plain reachability (trace inclusion), not quiescent-state equality.
+          -- Only a load in flight holds a mutex for long, so non-quiescent states are admitted only
+          -- while some runner's refMu is held by its load goroutine.
+          let loading (s : State) : Bool := (List.range s.nRunners).any (fun r => (s.runners r).refMuHeld)
+          let matching := dedup (all.filter (fun s => showObs s == obs && (loading s || quiescent v cpu ngpus s)))
           if matching.isEmpty then
             let ex := match quiet.head? with | some s => showObs s | none => "<no quiescent state>"
-            s!"diverge {k} {cur.length} model={ex}"
+            let others := ((all.map showObs).eraseDups.take 6)
+            s!"diverge {k} {cur.length} model={ex} reachable={others}"
           else go (k+1) matching rest
       | _ => "bad-op"
   go 0 [s0] steps
